@@ -17,7 +17,7 @@ RULE = ('random module programs: create modules/parameters, assign attributes fr
 EXHAUSTIVE = {'quick': False, 'thorough': False}
 ASSUMPTIONS = ['hierarchies are acyclic (a module is never made a descendant of itself)']
 TRUSTED_BASE = ['harness/props/c12.py (generator, canonicalisation)']
-NAMES = ['a', 'b', 'c', 'w']
+NAMES = ['a', 'b', 'c', 'w', '_u', '_fc', 'A1']      # attribute names incl. underscore-prefixed and capitalised ones
 
 
 def gen_program(rng, nops):
